@@ -1,5 +1,5 @@
 (* C03 — A volume survives a crash at any point without serving wrong data.
-   Only statements closed by [exact]; proofs live in proof/VolumeCrash{Proofs,Load,Safe}.v.
+   Only statements closed by [exact]; proofs live in proof/VolumeCrash{Proofs,Load,Spec,Safe}.v.
 
    [crc] is the CRC32-Castagnoli oracle (any function list N -> N).  A history [h] is a list of
    Write / Delete operations on a version-3 volume; [p_run h] is the running volume (its .dat as a
